@@ -238,6 +238,27 @@ def split_merge(chk, mod):
               and t[origin]['hkl_vec'] is mod.hkl_vec_from_Q_vec and t[origin][('h', 'k', 'l')] is mod.hkl_elements_from_hkl_vec
               and t[origin]['ub_matrix'] is mod.ub_matrix_from_u_and_b)
         chk.decided(f'conversion.graph.tof:table/{origin}: Q-vector and hkl wiring', ok)
+    # the same through the factories for the vector quantities, each asked again after its caller has rewired what it was handed
+    # (a graph is the caller's to customise): the wiring that comes back is the documented one every time
+    want = {('Qx', 'Qy', 'Qz'): mod.Q_elements_from_wavelength, 'Q_vec': mod.Q_vec_from_Q_elements, 'hkl_vec': mod.hkl_vec_from_Q_vec,
+            ('h', 'k', 'l'): mod.hkl_elements_from_hkl_vec, 'ub_matrix': mod.ub_matrix_from_u_and_b}
+    bad = []
+    for round_ in range(2):
+        for fname in ('elastic_Q_vec', 'elastic_hkl', 'elastic'):
+            f = getattr(g, fname, None)
+            if f is None:
+                continue
+            for origin in ('tof', 'wavelength'):
+                got = f(origin)
+                for key, fn in want.items():
+                    if key in got and got[key] is not fn:
+                        bad.append(f'{fname}({origin!r})[{key!r}] is {getattr(got[key], "__name__", got[key])} (round {round_})')
+                if 'Q_vec' not in got or (fname != 'elastic_Q_vec' and 'hkl_vec' not in got):
+                    bad.append(f'{fname}({origin!r}) lacks the vector nodes (round {round_})')
+                for key in list(got):
+                    got[key] = (lambda **kw: None)         # the caller's own node
+    chk.decided('conversion.graph.tof:elastic_Q_vec, elastic_hkl, elastic/documented wiring on every request, also after a caller rewired an earlier answer', not bad,
+                detail='; '.join(bad[:4]))
 
 
 def _numeric_failures(n, seed, limit=3):
